@@ -399,6 +399,7 @@ func resolveRoles(w *World) *roles {
 	ro.newScope = w.Fn(w.Godi, "newScope")
 	// the function that runs the cycle check (a collection method, or a plain helper of the build)
 	var cycleFn *FuncInfo
+	cycleRank := 0
 	for _, fi := range w.FuncsOf(w.Godi) {
 		isColl := false
 		if rn := recvNamed(fi.Obj); rn != nil && rn.Obj().Name() == "collection" {
@@ -406,8 +407,28 @@ func resolveRoles(w *World) *roles {
 		}
 		for _, c := range callsIn(fi.Decl.Body, true) {
 			if cal := callee(fi.Pkg.TypesInfo, c); cal != nil && cal.Name() == "DetectCycles" && recvNamed(cal) != nil && recvNamed(cal).Obj().Name() == "DependencyGraph" {
-				if cycleFn == nil || isColl {
-					cycleFn = fi
+				// several functions may run the cycle check (a Validate dry run next to Build): the one
+				// on the way to the provider allocation is Build's
+				rank := 1
+				if isColl {
+					rank = 2
+				}
+				if ro.allocProvider != nil {
+					for _, f := range w.Within(fi, 2) {
+						if f == ro.allocProvider {
+							rank += 4
+						}
+					}
+					for c := range w.Callers()[fi] {
+						for _, f := range w.Within(c, 2) {
+							if f == ro.allocProvider {
+								rank += 2
+							}
+						}
+					}
+				}
+				if cycleFn == nil || rank > cycleRank {
+					cycleFn, cycleRank = fi, rank
 				}
 			}
 		}
@@ -774,7 +795,13 @@ func isEffectNodeEntryExcept(info *types.Info, n ast.Node, pure func(*types.Func
 				return true
 			}
 			eff = true
-		case *ast.GoStmt, *ast.DeferStmt:
+		case *ast.DeferStmt:
+			// deferring something that is no effect (the unlock of a lock just taken) is no effect
+			if cal := callee(info, x.Call); cal != nil && pure != nil && pure(cal) {
+				return false
+			}
+			eff = true
+		case *ast.GoStmt:
 			eff = true
 		}
 		return true
